@@ -234,6 +234,7 @@ func try(fn func()) (res string) {
 
 var nameSeq int
 var manyPersists bool
+var dumpMode bool
 
 func adminOp(r *rand.Rand) {
 	ts := currentTables()
@@ -271,7 +272,11 @@ func adminOp(r *rand.Rand) {
 				extra = " index(a) in " + pick().name + mode
 			}
 		}
-		cmd = "create t" + n + " (k, a, b, c) key(k)" + extra
+		name := "t" + n
+		if r.Intn(2) == 0 {
+			name = "t" + strconv.Itoa(1+r.Intn(4)) // reuse names of dropped tables
+		}
+		cmd = "create " + name + " (k, a, b, c) key(k)" + extra
 	} else {
 		t := pick()
 		col := func() string { return t.cols[r.Intn(len(t.cols))] }
@@ -291,8 +296,19 @@ func adminOp(r *rand.Rand) {
 		case 9:
 			cmd = "view v" + n + " = " + t.name
 		case 10:
-			if r.Intn(3) == 0 {
+			if r.Intn(2) == 0 {
 				cmd = "drop " + t.name
+				if r.Intn(2) == 0 {
+					// drop, recreate under the same name and drop again without a persist in between
+					res := try(func() { query.DoAdmin(db, cmd, nil) })
+					tr.Emit(vh.E("Admin", "cmd", cmd, "res", res))
+					c2 := "create " + t.name + " (k, a, b, c) key(k) index(b)"
+					res = try(func() { query.DoAdmin(db, c2, nil) })
+					tr.Emit(vh.E("Admin", "cmd", c2, "res", res))
+					if r.Intn(2) == 0 {
+						tranOp(r)
+					}
+				}
 			} else {
 				cmd = "ensure " + t.name + " (k, e" + n + ") index(e" + n + ")"
 			}
@@ -439,8 +455,84 @@ func buildThenChange(r *rand.Rand) {
 	}
 }
 
+// liveDump: dump one table of the OPEN database (merger running, changes possibly not
+// persisted yet) and load it into a fresh database: must be the table as visible now
+func liveDump(r *rand.Rand) {
+	ts := currentTables()
+	if len(ts) == 0 {
+		return
+	}
+	t := ts[r.Intn(len(ts))]
+	if strings.Contains(db.Schema(t.name), " in ") {
+		return // a lone table with a foreign key cannot be loaded into an empty database
+	}
+	rt := db.NewReadTran()
+	var want []string
+	it := rt.IndexIter(t.name, 0)
+	sch := db19.VerifReadMeta(rt).GetRoSchema(t.name)
+	for it.Next(rt); !it.Eof(); it.Next(rt) {
+		want = append(want, liveRow(db19.OffToRec(db.Store, it.CurOff()), sch.Columns))
+	}
+	sort.Strings(want)
+	wd, _ := os.Getwd()
+	os.Chdir(dir)
+	defer os.Chdir(wd)
+	su := t.name + ".su"
+	newdb := filepath.Join(dir, "live.db")
+	os.Remove(newdb)
+	defer func() {
+		for _, f := range []string{su, su + ".bak", newdb, newdb + ".bak"} {
+			os.Remove(f)
+		}
+	}()
+	res := try(func() {
+		if _, err := tools.DumpDbTable(db, t.name, su, ""); err != nil {
+			panic(err)
+		}
+		if _, err := tools.LoadTable(t.name, newdb); err != nil {
+			panic(err)
+		}
+	})
+	same := 0
+	if res == "ok" {
+		if d, err := db19.OpenDb(newdb, stor.Read, true); err == nil {
+			rt2 := d.NewReadTran()
+			var got []string
+			it := rt2.IndexIter(t.name, 0)
+			sch2 := db19.VerifReadMeta(rt2).GetRoSchema(t.name)
+			for it.Next(rt2); !it.Eof(); it.Next(rt2) {
+				got = append(got, liveRow(db19.OffToRec(d.Store, it.CurOff()), sch2.Columns))
+			}
+			sort.Strings(got)
+			if strings.Join(got, "\x00\x01") == strings.Join(want, "\x00\x01") {
+				same = 1
+			}
+			d.Close()
+		}
+	}
+	tr.Emit(vh.E("LiveDump", "table", t.name, "res", res, "same", same))
+}
+
+func liveRow(rec core.Record, cols []string) string {
+	var sb strings.Builder
+	for ci, col := range cols {
+		if col == "-" {
+			continue
+		}
+		if ci < rec.Count() {
+			sb.WriteString(rec.GetRaw(ci))
+		}
+		sb.WriteString("\x00\x02")
+	}
+	return strings.TrimRight(sb.String(), "\x00\x02")
+}
+
 func history(r *rand.Rand, steps int) {
 	for i := 0; i < steps; i++ {
+		if dumpMode && r.Intn(8) == 0 {
+			liveDump(r)
+			continue
+		}
 		if r.Intn(12) == 0 {
 			buildThenChange(r)
 			continue
@@ -475,6 +567,7 @@ func scenario(r *rand.Rand, sn int, mode string, ntrials int, tot map[string]int
 	db19.StartConcur(db, time.Duration(4+r.Intn(20))*time.Millisecond)
 	tr.Emit(vh.E("Created", "statelen", db19.VerifStateLen, "tail", db19.VerifTailSize))
 	manyPersists = mode == "crash" || mode == "asof"
+	dumpMode = mode == "dump" || mode == "all"
 	rounds := 1 + r.Intn(3)
 	var img []byte
 	for round := 0; round < rounds; round++ {
